@@ -1188,6 +1188,10 @@ def remap(root, visit=default_visit, enter=default_enter, exit=default_exit,
 
     path, registry, stack = (), {}, [(None, root)]
     new_items_stack = []
+    # the registry is keyed by id(): every traversed object is kept
+    # alive until remap returns, so that a temporary object handed out
+    # by an enter callback cannot pass its id on to a later one
+    entered = []
     while stack:
         key, value = stack.pop()
         id_value = id(value)
@@ -1221,6 +1225,7 @@ def remap(root, visit=default_visit, enter=default_enter, exit=default_exit,
             if new_items is not False:
                 # traverse unless False is explicitly passed
                 registry[id_value] = new_parent
+                entered.append(value)
                 new_items_stack.append((path, []))
                 if value is not root:
                     path += (key,)
